@@ -29,8 +29,12 @@ TOPO = {
     'star4': (4, [(1, 2), (1, 3), (1, 4)], [], [2]),
     'two-pairs': (4, [(1, 2), (3, 4)], [], [1, 3]),
     'five+jumper': (5, [(1, 2), (2, 3), (3, 4), (4, 5), (5, 1)], [(2, 4)], [1, 5]),
+    # three multi-bus groups with interleaved bus numbers {1,4,7} {2,3} {5,6,8}, joined by two switchable ties
+    'interleaved8': (8, [(1, 4), (4, 7), (2, 3), (5, 6), (6, 8), (7, 2), (3, 5)], [], [1, 5]),
 }
-QUICK = ['path3', 'tri+parallel', 'cycle4+chord', 'two-pairs']
+# lines whose status stays 1 (only the others are symbolic) -- keeps the 8-bus case cheap in the quick tier
+FIXED_ON = {'interleaved8': [0, 1, 2, 3, 4]}
+QUICK = ['path3', 'tri+parallel', 'cycle4+chord', 'two-pairs', 'interleaved8']
 
 _SYS = {}
 
@@ -41,9 +45,12 @@ def get_sys(name, with_devices=False):
         n, lines, jumpers, slacks = TOPO[name]
         kw = {}
         if with_devices:
-            kw = dict(pqs=[dict(bus=b, idx=f'PQ{b}') for b in range(1, n + 1)] + [dict(bus=1, idx='PQ1b')],
-                      shunts=[dict(bus=2, idx='SH2')],
+            # device indices deliberately include the falsy value 0
+            kw = dict(pqs=[dict(bus=b, idx=b - 1) for b in range(1, n + 1)] + [dict(bus=1, idx='PQ1b')],
+                      shunts=[dict(bus=2, idx=0)],
                       pvs=[dict(bus=b, idx=f'PV{b}') for b in range(1, n + 1) if b not in slacks] + [dict(bus=slacks[0], idx='PVs')])
+        if with_devices:
+            lines = [dict(bus1=a, bus2=b, idx=k) for k, (a, b) in enumerate(lines)]      # Line idx 0, 1, ...
         ss = cases.build(list(range(1, n + 1)), lines=lines, jumpers=jumpers,
                          slacks=[dict(bus=b, idx=f'SL{b}') for b in slacks], **kw)
         _SYS[key] = ss
@@ -76,7 +83,8 @@ def h_connectivity(name):
     def h(I):
         ss = get_sys(name)
         n, lines, jumpers, slacks = TOPO[name]
-        ul = I.arr(*[f'uL{k}' for k in range(len(lines))])
+        fixed = FIXED_ON.get(name, []) if core.tier() != 'thorough' else []
+        ul = I.arr(*[(1.0 if k in fixed else f'uL{k}') for k in range(len(lines))])
         uj = I.arr(*[f'uJ{k}' for k in range(len(jumpers))]) if jumpers else np.zeros(0)
         us = I.arr(*[f'uS{k}' for k in range(len(slacks))])
         for v in list(ul) + list(uj) + list(us):
@@ -156,6 +164,41 @@ def h_connman(name):
     return h
 
 
+def h_connman_seq(name):
+    """two separate Bus.set(u=...) calls after setup, then ConnMan.act(): every bus that is off must have its
+    devices switched off (a multi-step history)"""
+    def h(I):
+        from andes.core.connman import ConnMan
+        ss = get_sys(name, with_devices=True)
+        n = TOPO[name][0]
+        for mn in DEPS:
+            m = ss.models[mn]
+            if m.n:
+                m.u.v = np.ones(m.n)
+        ss.TDS.initialized = False
+        ss.Bus.u.v = I.to_obj(np.ones(n))
+        ss.conn = ConnMan(ss)
+        ss.conn.init()
+        ss.is_setup = True
+        vals = [I.real('first_value'), I.real('second_value')]
+        for v in vals:
+            I.assume(OR(EQ(v, 0, tol=0.0), EQ(v, 1, tol=0.0)))
+        b1, b2 = ss.Bus.idx.v[0], ss.Bus.idx.v[n - 1]
+        ss.Bus.set(src='u', attr='v', idx=b1, value=vals[0])
+        ss.Bus.set(src='u', attr='v', idx=b2, value=vals[1])
+        ss.conn.act()
+        out = []
+        off = {ss.Bus.idx.v[k]: EQ(ss.Bus.u.v[k], 0, tol=0.0) for k in range(n)}
+        for mn, fields in DEPS.items():
+            m = ss.models[mn]
+            for d in range(m.n):
+                anyoff = OR(*[off[m.__dict__[f].v[d]] for f in fields])
+                out.append((f'after two Bus.set calls {mn}[{m.idx.v[d]}] is off <=> one of its buses is off',
+                            IFF(EQ(m.u.v[d], 0, tol=0.0), anyoff)))
+        return out
+    return h
+
+
 def region_of(values, cname):
     c = cname.split('[')[0].strip()
     if cname == 'no exception':
@@ -173,6 +216,8 @@ def job(spec):
     if kind == 'conn':
         return H.run(f'System.connectivity[{name}]', h_connectivity(name), timeout_ms=10000, max_paths=3000,
                      region=region_of)
+    if kind == 'connseq':
+        return H.run(f'Bus.set x2 + ConnMan.act[{name}]', h_connman_seq(name), timeout_ms=10000, max_paths=3000, region=region_of)
     return H.run(f'ConnMan.init/act[{name}]', h_connman(name), timeout_ms=10000, max_paths=3000, region=region_of)
 
 
@@ -200,7 +245,8 @@ def main():
     ck.assume('statuses are exactly 0 or 1')
     ck.out('topologies beyond the catalogue', 'bus switching after TDS initialisation (NotImplemented in ANDES)',
            'Fortescue devices')
-    jobs = [('conn', n) for n in names] + [('connman', n) for n in (names if thorough else ['path3', 'two-pairs'])]
+    jobs = [('conn', n) for n in names] + [('connman', n) for n in (names if thorough else ['path3', 'two-pairs'])] \
+        + [('connseq', n) for n in (['path3', 'two-pairs', 'cycle4+chord'] if thorough else ['two-pairs'])]
     ck.merge(core.pmap(job, jobs))
     for n in names[:4]:
         ck.sample({'topology': n, 'buses': TOPO[n][0], 'lines': TOPO[n][1], 'jumpers': TOPO[n][2], 'slack_buses': TOPO[n][3]})
